@@ -105,9 +105,14 @@ func genC07(r *simrt.Rand, idx int, tier string) ConcCase {
 	c.World = genConcWorld(r)
 	c.Keys = genKeys(r, 2, 3)
 	id := uint64(0)
+	// one program in seven starts on a database that has never published anything: the
+	// commits of the concurrent phase are the first writes it sees
+	fresh := idx%7 == 3
 	for _, k := range c.Keys {
 		id++
-		c.Init = append(c.Init, Op{K: "set", Key: k, ID: id, Size: smallSize(r)})
+		if !fresh {
+			c.Init = append(c.Init, Op{K: "set", Key: k, ID: id, Size: smallSize(r)})
+		}
 	}
 	if idx%5 == 4 {
 		// small: one or two snapshot transactions have already written the hot key and only commit
@@ -298,6 +303,9 @@ func checkC07(c ConcCase, cr *concRun, out *RunOut) *Violation {
 				if events[k][i].ID == 0 {
 					cur = &events[k][i] // some delete
 				}
+			}
+			if cur == nil && len(events[k]) == 0 {
+				continue // never written (the program started on an empty database): not found is right
 			}
 			if cur == nil {
 				return &Violation{Class: "lost-write", Signature: "C07|final-missing",
